@@ -5,28 +5,28 @@ V = os.path.dirname(os.path.dirname(os.path.abspath(__file__)))
 
 CLAIMED = {
  "C13": dict(
-    text="Proof of the share-or-copy machinery. Kani (full i32 domain): function contracts on the real Generation methods, lemmas over them, coherence of the collector's mark test with the cloner's share test on a real one-object heap. Verus (unbounded, bodies extracted every run): Value::generation, Cloner::{new, force_full_clone, deep_clone, deep_clone_inner, deep_clone_array}, Gc::new_child_gc, Thread::can_share_values_with (parent-chain walk with an inductive invariant over a thread tree of any depth), Thread::deep_clone_value, <Reference as Userdata>::deep_clone: a pointer crosses uncopied only into its own heap or a descendant's; into an unrelated thread everything is copied; every pointer-carrying array representation has its elements cloned. Found and repaired the string-array defect.",
-    note="Trusted: env.rs stand-ins; the per-representation helpers deep_clone_str/data/closure/app, deep_clone_ptr (visited map) and Userdata::deep_clone are ASSUMED to return new objects of the receiving heap; thread-tree axiom (child = one level deeper, one generation younger, same global state); get_type_info stubbed in the Kani coherence harness. Not under contract: visited-map sharing/cycle preservation, structural equality of copies, lifetime after the sender is dropped.",
+    text="Proof of the share-or-copy machinery. Kani (full i32 domain): function contracts on the real Generation methods, lemmas over them, coherence of the collector's mark test with the cloner's share test on a real one-object heap. Verus (unbounded, bodies extracted every run): Value::generation, Cloner::{new, force_full_clone, deep_clone, deep_clone_inner, deep_clone_array, deep_clone_ptr (visited map keyed by object address; remembered copies are never forgotten)}, Gc::new_child_gc, Thread::can_share_values_with (parent-chain walk with an inductive invariant over a thread tree of any depth), Thread::deep_clone_value, RootedValue::re_root, the vm_push of RootedValue, <Reference as Userdata>::deep_clone and <Lazy as Userdata>::deep_clone: a pointer crosses uncopied only into its own heap or a descendant's; into an unrelated thread everything is copied; every pointer-carrying array representation has its elements cloned. Found and repaired the string-array defect.",
+    note="Trusted: env.rs stand-ins; the per-representation helpers deep_clone_str/data/closure/app and Userdata::deep_clone of other userdata are ASSUMED to return new objects of the receiving heap; thread-tree axiom (child = one level deeper, one generation younger, same global state); get_type_info stubbed in the Kani coherence harness. Not under contract: structural equality of copies, lifetime after the sender is dropped, the transfer sites' choice of owner (argued by hand in DESIGN 6.4).",
     technique="Kani function contracts on compiled code + Verus contracts on mechanically extracted bodies (incl. an inductive loop invariant for the parent-chain walk)",
     design="2/C13"),
  "C17": dict(
-    text="Proof (Verus/Z3, unbounded) of sequential contracts on the real bodies of Sender::send, Receiver::try_recv, the send primitive, reference set/get/make_ref and their st twins (extracted mechanically every run), plus inductive lemmas that the contracts imply FIFO exactly-once delivery and last-write-wins for every operation history. Partial: lazy values and coroutines not covered.",
-    note="Trusted: env.rs stand-in types, R-lock (bodies verified as critical sections), assumed contract of deep_clone_value (structurally equal copy), clone_unrooted as identity. lazy.rs and resume/yield/spawn are outside both tools.",
+    text="Proof (Verus/Z3, unbounded) of sequential contracts on the real bodies of Sender::send, Receiver::try_recv, the send primitive, reference set/get/make_ref and their st twins (extracted mechanically every run), plus inductive lemmas that the contracts imply FIFO exactly-once delivery and last-write-wins for every operation history; and a contract on the failure arm of lazy force (a failed evaluation must not leave the value 'being evaluated'), which fails on the real code and is recorded as a known finding with a native demonstration. Partial: the rest of lazy and coroutines are not covered.",
+    note="Trusted: env.rs stand-in types, R-lock (bodies verified as critical sections), assumed contract of deep_clone_value (structurally equal copy), clone_unrooted as identity. The async state machine of lazy force (blackhole detection, waiters) and resume/yield/spawn are outside both tools. Known finding C17/lazy/force_thunk_failed is reported, not repaired.",
     technique="Verus contracts on mechanically extracted function bodies + inductive history lemmas",
     design="2/C17"),
  "C01": dict(
-    text="Proof of the leaf operations the reference semantics bottoms out in. Verus (unbounded, extracted every run): 21 Stack/StackFrame primitives against a Seq<Value> view, Instruction::adjust against the documented stack-effect table, ProgramCounter index safety, and six interpreter arms (Pop, Slide, PushInt/Byte/Float, ConstructVariant: run-time effect = static effect, constructed value has exactly the top args values as fields in order). Kani (full domain): the 18 arithmetic/comparison interpreter arms (expression text parsed from execute_ every run) against Z / IEEE and the operator-name -> opcode table. Partial: translate/compile/call protocol are not under contract.",
-    note="Trusted: env.rs stand-ins and rewrite rules listed in evidence; MultiplyInt/DivideInt references are core's checked_mul and the language's `/`; binop_* error mapping, Translator, Compiler::compile_, do_call, rename, implicits are unverified.",
+    text="Proof of the leaf operations the reference semantics bottoms out in and of the call/return protocol. Verus (unbounded, extracted every run): 21 Stack/StackFrame primitives against a Seq<Value> view, index_from, Deref; call_function_with_upvars (exact / partial / over-application layouts), the PartialApplication arm of do_call, the return statements of execute_ and ExecuteContext::exit_scope; binop/binop_int/binop_byte/binop_bool (operand order, failure leaves the stack untouched); interpreter arms Pop, Slide, Push, PushInt/Byte/Float, GetOffset, Split, ConstructVariant, ConstructRecord, ConstructArray, MakeClosure, TailCall (run-time effect = static effect; constructed value has exactly the top args values as fields in order); Instruction::adjust against the documented stack-effect table, ProgramCounter index safety, the && and || blocks of compile_primitive (short-circuit layout). Kani (full domain): the 18 arithmetic/comparison interpreter arms (expression text parsed from execute_ every run) against Z / IEEE and the operator-name -> opcode table. Partial: translation to core and compile_ are not under contract.",
+    note="Trusted: env.rs stand-ins and rewrite rules listed in evidence; MultiplyInt/DivideInt references are core's checked_mul and the language's `/`; for arms/blocks/tails the wrapper signature is mine (free variables become parameters). Translator, PatternTranslator, Compiler::compile_ (other than the two blocks), the remaining interpreter arms, rename, implicits are unverified.",
     technique="Verus contracts on extracted bodies + generated Kani harnesses over the interpreter arm table",
     design="2/C01"),
  "C06": dict(
-    text="Proof (Kani, full argument domains; &str arguments bounded to <= 2 chars and labelled bounded) that every scalar primitive registered in load_int/load_byte/load_char/load_float/load_string - the registered expression text itself, parsed from the tables every run - neither panics nor traps nor exhibits UB on any well-typed argument; Verus contracts on StackFrame::exit_scope (a locked frame is never popped) and reset_stack (exactly the frames above the recorded level are removed). Found and repaired three classes of host-aborting primitives; found (and recorded as a known finding) that reset_stack does not reclaim the values of a failed run.",
-    note="Trusted: debug-profile semantics; alloc::fmt::format stubbed; pow's overflow trap asserted through checked_pow because Kani does not model it; 51 table entries (libm floats, string searchers, unicode tables, Thread-dependent) are skipped and listed in evidence; strings longer than 2 chars are not explored; array/userdata/IO/random/regex primitives, unpack_and_call, call_thunk_top and async result delivery are unverified. Known finding C06/thread/reset_stack_values is reported, not repaired.",
-    technique="generated Kani harnesses (one per primitive!() table entry) + Verus contract on exit_scope",
+    text="Proof (Kani, full argument domains; &str arguments bounded to <= 2 chars and labelled bounded) that every scalar primitive registered in load_int/load_byte/load_char/load_float/load_string - the registered expression text itself, parsed from the tables every run - and each of the 18 arithmetic/comparison arms of the interpreter neither panics nor traps nor exhibits UB on any well-typed argument; Verus contracts on StackFrame::exit_scope (a locked frame is never popped), reset_stack (exactly the frames above the recorded level are removed), async_status_push (a failed push becomes Status::Error and cannot itself fail), the validation head of array::slice, std.random gen_int_range, std.io write_slice_file / read_file (the last three against documented contracts of dependencies). Found and repaired five classes of host-aborting primitives; found (and recorded as a known finding) that reset_stack does not reclaim the values of a failed run.",
+    note="Trusted: debug-profile semantics; alloc::fmt::format stubbed; pow's overflow trap asserted through checked_pow because Kani does not model it; assumed dependency contracts (rand random_range panics on an empty range, Vec::with_capacity panics above isize::MAX bytes, slice indexing panics out of range); 51 table entries (libm floats, string searchers, unicode tables, Thread-dependent) are skipped and listed in evidence; strings longer than 2 chars are not explored; userdata/regex/most IO primitives, unpack_and_call, call_thunk_top and the future plumbing of async result delivery are unverified. Known finding C06/thread/reset_stack_values is reported, not repaired.",
+    technique="generated Kani harnesses (one per primitive!() table entry and per arithmetic interpreter arm) + Verus contracts on extracted bodies",
     design="2/C06"),
  "C07": dict(
-    text="Proof of the three limit computations: Kani (symbolic counters, full usize domain) on the real Gc::alloc_owned (accounted memory never exceeds the limit; failure leaves the heap untouched) and check_collect; Verus on the real add_new_frame (frame entered iff len + max_stack_size <= limit) and on the per-instruction step of static stack accounting (adjust/emit/increase_stack/emit_call). Found and repaired the header-not-counted defect.",
-    note="Trusted: get_type_info stubbed; allocated_memory <= isize::MAX; no u32 wrap in len+max_stack_size; operand_fits. TailCall frame reuse, interrupt polling, native-stack depth and the induction over compile_ are not under contract.",
+    text="Proof of the three limit computations: Kani (symbolic counters, full usize domain) on the real Gc::alloc_owned (accounted memory never exceeds the limit; failure leaves the heap untouched) and check_collect; Verus on the real add_new_frame (frame entered iff len + max_stack_size <= limit), enter_scope / enter_scope_excess, on the per-instruction step of static stack accounting (adjust/emit/increase_stack/emit_call), on the tail flag of the && / || operands, on every TailCall arm of the interpreter (frame list shrinks and the new call reuses the returning function's slot: constant stack) and on ExecuteContext::exit_scope. Found and repaired the header-not-counted defect.",
+    note="Trusted: get_type_info stubbed; allocated_memory <= isize::MAX; no u32 wrap in len+max_stack_size; operand_fits. Interrupt polling (shape of the execute loop), native-stack depth and the induction over compile_ are not under contract.",
     technique="Kani harnesses on the real allocator + Verus contracts on extracted bodies",
     design="2/C07"),
  "C08": dict(
